@@ -1394,6 +1394,13 @@ closerLoop:
 			// Remove any delimiters between the opener and closer from the delimiter stack.
 			state.stack = deleteDelimiterStack(state.stack, openerIndex+1, currentPosition)
 			currentPosition = openerIndex + 1
+			// The saved lower bounds are indices into the stack:
+			// none of them may point past the entries that were just removed.
+			for i := range openersBottom {
+				if openersBottom[i] > currentPosition {
+					openersBottom[i] = currentPosition
+				}
+			}
 
 			// If either the opening or the closing text nodes became empty,
 			// remove them from the tree.
@@ -1401,6 +1408,12 @@ closerLoop:
 				state.remove(opener)
 				state.stack = deleteDelimiterStack(state.stack, openerIndex, openerIndex+1)
 				currentPosition--
+				// Likewise after removing the opener itself.
+				for i := range openersBottom {
+					if openersBottom[i] > currentPosition {
+						openersBottom[i] = currentPosition
+					}
+				}
 			}
 			if closer.Span().Len() == 0 {
 				state.remove(closer)
@@ -1855,7 +1868,7 @@ type delimiterStackElement struct {
 	node  *Inline
 }
 
-const openersBottomCount = 9
+const openersBottomCount = 14
 
 func (elem delimiterStackElement) openersBottomIndex() int {
 	switch elem.typ {
@@ -1866,11 +1879,15 @@ func (elem delimiterStackElement) openersBottomIndex() int {
 			return 3 + elem.n%3
 		}
 	case inlineDelimiterUnderscore:
-		return 6
+		if elem.flags&openerFlag == 0 {
+			return 6 + elem.n%3
+		} else {
+			return 9 + elem.n%3
+		}
 	case inlineDelimiterLink:
-		return 7
+		return 12
 	case inlineDelimiterImage:
-		return 8
+		return 13
 	default:
 		panic("unreachable")
 	}
